@@ -95,7 +95,58 @@ type c30Trial struct {
 	Limit   uint64 `json:"stack_depth_limit,omitempty"` // Config.StackDepthLimit (0 = default)
 }
 
+// runAbortThenRetry: the history "an execution is aborted by a metering limit at gauge call k; the same node, with the same
+// program cache, then executes again without a limit" for k swept over the whole gauge stream of the first execution (which
+// starts with a cold cache, so that parsing, checking and - on the VM - compiling the imported contract lie inside the sweep).
+// The retry must terminate and give the result of a run that was never interrupted; a hang is caught by the caller's watchdog.
+func runAbortThenRetry(tr c30Trial) (vs []Violation, info string) {
+	viol := func(oracle, key, f string, a ...any) {
+		vs = append(vs, Violation{Property: "C30", Oracle: oracle, Node: tr.Engine, Engine: tr.Engine, Key: key + ":" + tr.Program,
+			Detail: fmt.Sprintf("abort-then-retry on %s (%s limit): ", tr.Engine, tr.Site) + fmt.Sprintf(f, a...)})
+	}
+	src := "import Run from 0x1\naccess(all) fun main(): Int {\n    let v = attach Run.Att() to Run.Impl()\n    return Run.rec(12) + Run.WithCond().down(3) + v[Run.Att]!.climb(2) + Run.Impl().go(4)\n}\n"
+	fresh := func() *Node {
+		n := NewNode(NodeConfig{Name: tr.Engine, Engine: tr.Engine, Cache: "warm", EnvReuse: true, KeepLoaded: true}, NewWorld())
+		if t := n.Exec(ExecReq{Kind: "tx", Source: DeployTx("Run", runSrc), Signers: []uint64{1}}, true); t.Err != nil {
+			panic("harness: deploy Run: " + t.Err.Error())
+		}
+		n.H.EvictAll()
+		return n
+	}
+	clean := fresh().Exec(ExecReq{Kind: "script", Source: src, Salt: 9}, false)
+	if clean.Class != "ok" {
+		panic("harness: abort-then-retry program fails: " + fmt.Sprint(clean.Err))
+	}
+	total := clean.MemN
+	if tr.Site == "comp" {
+		total = clean.CompN
+	}
+	stride := total/tr.Budget + 1
+	fired := 0
+	for k := 0; k < total; k += stride {
+		n := fresh()
+		t1 := n.Exec(ExecReq{Kind: "script", Source: src, Salt: 9, Faults: []FaultSpec{{Site: tr.Site, Nth: k, Mode: "sticky"}}}, false)
+		if t1.FiredGauge < 0 {
+			continue
+		}
+		fired++
+		if t1.Class != "user" || !strings.Contains(t1.ErrType, "MeteringError") {
+			viol("limit-error", "limit-error", "the %s limit tripped at gauge call %d but the execution ended with %s %s: %s", tr.Site, k, t1.Class, t1.ErrType, t1.ErrMsg)
+			return vs, info
+		}
+		t2 := n.Exec(ExecReq{Kind: "script", Source: src, Salt: 9}, false)
+		if t2.Class != "ok" || t2.Result != clean.Result {
+			viol("retry-after-limit", "retry", "after an execution was aborted by the %s limit at gauge call %d of %d, the next execution on the same node ended %s %s (result %s, uninterrupted result %s): %s", tr.Site, k, total, t2.Class, t2.ErrType, t2.Result, clean.Result, t2.ErrMsg)
+			return vs, info
+		}
+	}
+	return vs, fmt.Sprintf("class=ok type=abort-then-retry aborts=%d gauge=%d", fired, total)
+}
+
 func runC30(tr c30Trial) (vs []Violation, info string) {
+	if tr.Program == "abort-then-retry" {
+		return runAbortThenRetry(tr)
+	}
 	var prog *c30Program
 	for _, p := range c30Programs() {
 		if p.Name == tr.Program {
@@ -178,6 +229,16 @@ func c30Trials(tier string, rng *Rng) []c30Trial {
 	if tier == "thorough" {
 		budgets = append(budgets, 30000000)
 		engines = append(engines, "vmpeep")
+	}
+	// histories: aborted by a limit, then executed again on the same node (Budget = number of abort points swept)
+	points := 250
+	if tier == "thorough" {
+		points = 2500
+	}
+	for _, e := range engines {
+		for _, site := range []string{"mem", "comp"} {
+			out = append(out, c30Trial{Program: "abort-then-retry", Engine: e, Site: site, Budget: points})
+		}
 	}
 	for _, p := range c30Programs() {
 		for _, e := range engines {
